@@ -466,6 +466,7 @@ def check(run):
     nrule = 3000 if thorough else 320
     nbound = 1500 if thorough else 120
     nnear = 400 if thorough else 50
+    nver = 200 if thorough else 40
     import random as _random
     import time as _time
     t_phase = {"start": _time.time()}
@@ -834,6 +835,99 @@ def check(run):
             if len([v for v in run.violations if v.replay and v.replay.get("kind") == "find"]) > 5:
                 break
 
+    # ---- oracle: every public way of naming the STIX version (stix_version "2.0" / "2.1", as keyword, positionally, not
+    #      at all) with version-specific vocabulary (a 2.1-only keyword as a 2.0 property name): on a pattern the validator
+    #      of that version accepts the test must not raise, must be reflexive, must not depend on how the version is handed
+    #      over, and equivalent_patterns and find_equivalent_patterns must agree pair by pair
+    ver_rng = _random.Random(run.seed * 104729 + 7)
+    g3 = G.Gen(ver_rng, 2)
+    vfam = []          # (version, [texts]); texts[0] is the query
+    vrisky = set()
+    for n in range(nver):
+        for _ in range(30):
+            base = G.normalize_shape(g3.pattern())
+            if G.leaf_qualifier_clash(base) or G.size(base) > 25 or G.too_costly(base):
+                continue
+            if n % 2 == 0:
+                base = G.as_v20_only(ver_rng, base)
+                if base is None:
+                    continue
+            break
+        else:
+            continue
+        ver = "2.0" if n % 2 == 0 else "2.1"
+        members = [base]
+        r1 = G.rw_observation(ver_rng, base)
+        if r1 is not None and not G.leaf_qualifier_clash(G.normalize_shape(r1[0])) and not G.too_costly(r1[0]):
+            members.append(G.normalize_shape(r1[0]))
+        ed = G.edit(ver_rng, base)
+        if ed is not None and not G.leaf_qualifier_clash(G.normalize_shape(ed[0])) and not G.too_costly(ed[0]):
+            members.append(G.normalize_shape(ed[0]))
+        try:
+            vfam.append((ver, [G.print_o(m, ver_rng, 0.05)[0] for m in members]))
+        except Exception:  # noqa: BLE001
+            continue
+        if any(has_atom(m, lambda a: G.print_path(a[1], a[2])[1] is None) for m in members):
+            vrisky.add(vfam[-1][1][0])     # a path shape the visitor is known to reject (listed under C10)
+    vvalid = common.run_impl("c09_impl", [{"op": "valid", "p": t, "ver": ver} for ver, ts in vfam for t in ts])
+    vcases = []
+    k = 0
+    for ver, ts in vfam:
+        ok = [t for t in ts if vvalid[k + ts.index(t)].get("valid")]
+        k += len(ts)
+        if not ok or ok[0] != ts[0]:
+            continue
+        forms = ["kw", "pos"] + (["default"] if ver == "2.1" else [])
+        for f in forms:
+            for t in ok:
+                vcases.append(({"op": "equiv", "p": ok[0], "q": t, "ver": ver, "form": f}, ver, f, ok))
+            vcases.append(({"op": "find", "p": ok[0], "ps": ok, "ver": ver, "form": f}, ver, f, ok))
+    vres = common.run_impl("c09_impl", [c for c, _, _, _ in vcases])
+    stats["version_forms"] = 0
+    by_call = {}
+    for (c, ver, f, ok), r in zip(vcases, vres):
+        by_call[(c["op"], c["p"], c.get("q"), ver, f)] = r
+    n_v = 0
+    for (c, ver, f, ok), r in zip(vcases, vres):
+        if n_v >= 6:
+            break
+        run.count(c, nontrivial=True)
+        stats["version_forms"] += 1
+        base_kw = by_call.get(("equiv", c["p"], c["p"], ver, "kw"))
+        if c["op"] == "equiv":
+            if is_exc(r):
+                # a crash that the keyword form on the pattern itself shows as well is one of the listed / reported classes
+                kw_fine = not is_exc(by_call.get(("equiv", c["p"], c["q"], ver, "kw")))
+                if r.get("exc") != "CaseTimeout" and ((f != "kw" and kw_fine) or
+                                                      (f == "kw" and ver == "2.0" and c["p"] not in vrisky)):
+                    n_v += 1
+                    run.violations.append(Violation(
+                        "equivalent_patterns(.., stix_version %s handed over as %s) raises %s (%s) on %r / %r, which the %s validator accepts"
+                        % (ver, f, r["exc"], r.get("where"), c["p"], c["q"], ver),
+                        {"kind": "equiv-crash", "p": c["p"], "q": c["q"], "ver": ver, "form": f, "exc": r}))
+                continue
+            if c["q"] == c["p"] and r["r"] is not True:
+                n_v += 1
+                run.violations.append(Violation("equivalent_patterns(p, p) is False for p = %r (stix_version %s, %s)" % (c["p"], ver, f),
+                                                {"kind": "reflexive", "p": c["p"], "ver": ver, "form": f}))
+            kwr = by_call.get(("equiv", c["p"], c["q"], ver, "kw"))
+            if f != "kw" and kwr is not None and not is_exc(kwr) and kwr["r"] != r["r"]:
+                n_v += 1
+                run.violations.append(Violation(
+                    "equivalent_patterns(%r, %r) depends on how stix_version=%s is handed over: keyword %s, %s %s"
+                    % (c["p"], c["q"], ver, kwr["r"], f, r["r"]),
+                    {"kind": "version-form", "p": c["p"], "q": c["q"], "ver": ver, "form": f}))
+        else:
+            prs = [by_call.get(("equiv", c["p"], t, ver, f)) for t in ok]
+            if any(x is None or is_exc(x) for x in prs):
+                continue
+            want = [i for i, x in enumerate(prs) if x["r"] is True]
+            if is_exc(r) or r["r"] != want:
+                n_v += 1
+                run.violations.append(Violation(
+                    "find_equivalent_patterns returns members %s, the pairwise test says %s (stix_version %s handed over as %s)"
+                    % (r.get("r", r), want, ver, f), {"kind": "find", "p": c["p"], "ps": ok, "ver": ver, "form": f}))
+
     # ---- oracle: the normal form itself is a pattern equivalent_patterns reports equivalent to the
     #      original; written back as text it must match the same observation sequences
     t_phase["pairs_done"] = _time.time()
@@ -908,7 +1002,8 @@ def replay(payload):
         print("VIOLATION property=C09 replay=(given) no-failing-input-found")
         return 1
     kind = r.get("kind")
-    one = lambda c: common.run_impl("c09_impl", [c], procs=1)[0]   # noqa: E731
+    vf = {k: r[k] for k in ("ver", "form") if isinstance(r, dict) and k in r}
+    one = lambda c: common.run_impl("c09_impl", [dict(c, **vf)], procs=1)[0]   # noqa: E731
     bad = False
     if kind == "crash":
         res = one({"op": "norm", "p": r["pattern"]})
@@ -947,6 +1042,11 @@ def replay(payload):
         res = one({"op": "equiv", "p": r["p"], "q": r["q"]})
         print("replay equivalent_patterns = %s" % res)
         bad = is_exc(res)
+    elif kind == "version-form":
+        a = one({"op": "equiv", "p": r["p"], "q": r["q"]})
+        b = common.run_impl("c09_impl", [{"op": "equiv", "p": r["p"], "q": r["q"], "ver": r["ver"], "form": "kw"}], procs=1)[0]
+        print("replay equivalent_patterns: %s as given, %s with the keyword" % (a, b))
+        bad = a != b
     elif kind == "find":
         res = one({"op": "find", "p": r["p"], "ps": r["ps"]})
         pair = [one({"op": "equiv", "p": r["p"], "q": x}) for x in r["ps"]]
